@@ -90,6 +90,8 @@ pub struct HStats {
     pub rcu_retries: usize,
     pub rcu_discarded: usize,
     pub cas_success: usize,
+    #[serde(default)]
+    pub cas_held_guard: usize,
     pub cas_fail: usize,
     pub cas_forms: [usize; 4],
     pub restore_same: usize,
@@ -536,6 +538,19 @@ impl<S: Strat> Local<S> {
                     }
                     Some((g, _)) => Guard::into_inner(g),
                     None => return,
+                }
+            }
+            Cur::Held(i) if self.guards.iter().any(|(_, gi)| gi.cont == c) => {
+                // a guard taken some time ago: by now it may be stale and the last owner
+                let mine: Vec<usize> = (0..self.guards.len()).filter(|&k| self.guards[k].1.cont == c).collect();
+                let (g, info) = self.guards.swap_remove(mine[sel(*i, mine.len())]);
+                self.check_guard(sh, &g, &info, "held guard before compare_and_swap");
+                sh.hs(|h| h.cas_held_guard += 1);
+                if matches!(form, Form::Guard) {
+                    loaded_guard = Some(g);
+                    None
+                } else {
+                    Guard::into_inner(g)
                 }
             }
             Cur::Handle(i) if self.handles.iter().any(|h| h.ty() == sh.ctags[c]) => {
